@@ -7,5 +7,6 @@ CONSTANTS
   DollarAnchor = FALSE
   UnicodeDigits = FALSE
   NoRollback = FALSE
+  StaleKey = FALSE
 SPECIFICATION TSpec
 CHECK_DEADLOCK FALSE
